@@ -42,6 +42,7 @@ RUNS = {
     ],
     "C05": [
         {"name": "K4-session-lifecycle", "mode": "k4", "budget": (12000, 150000), "nontrivial": r"close=|^rtyp=(?!7 )", "keyfn": "k4", "monitor": "lifecycle"},
+        {"name": "K2-connection-cut-inside-a-frame", "mode": "k2srv", "budget": (400, 12000), "nontrivial": r"ended=1", "keyfn": "generic"},
         {"name": "K7-concurrent-lifecycle", "mode": "k7storm", "budget": (60, 2500), "nontrivial": r".", "keyfn": "generic"},
         {"name": "K7-scenarios", "mode": "k7scen", "budget": (8, 150), "nontrivial": r".", "keyfn": "k7scen"},
     ],
@@ -757,6 +758,9 @@ for _p in ("C01", "C02", "C03", "C11", "C18"):
         "entries of its own directory only.")
 PROPS["C09"]["rule"] = PROPS["C09"].get("rule", "") + (" k7pair: an unlink of an entry excludes every call on that entry, walks out of it included (a walk step cannot be "
     "overtaken by an unlink-and-replace of the directory it is leaving).")
+for _p in ("C02", "C05"):
+    PROPS[_p]["rule"] = PROPS[_p].get("rule", "") + (" k2srv also ends a third of its streams by cutting the connection inside a frame that is fine so far (any byte after the first): "
+        "Handle returns within 8 s (over a real socket pair: the vectorised read path).")
 PROPS["C10"]["level_text"] += (" Recycled response objects (Conc/RespPool.lean, after defect D20): over all clients of the process and every "
     "interleaving of calls starting, failing to send, being answered, connections failing and calls returning, a pooled response is referenced "
     "by no pending map and its channel is empty, no response serves two calls, and handleOne never blocks on a done channel while holding the "
